@@ -56,7 +56,7 @@ mutual
       ∀ (v : Value) (ws : WS), Trace ws.links.vlinks (walkValue sv cur exp dfn v ws).2
         (walkValue sv cur exp dfn v ws).1.links.vlinks
     | .mk k raw ch p, ws => by
-      rw [walkValue_mk]
+      rw [walkValue_mkL]
       have hobj := walkObjChildren_trace sv cur dfn ch ws
       have hlist := walkListChildren_trace sv cur exp dfn ch ws
       match k with
@@ -79,14 +79,14 @@ mutual
         (walkObjChildren sv cur dfn ch ws).1.links.vlinks
     | .nil, ws => by simp [walkObjChildren, Trace]
     | .cons n v p rest, ws => by
-      rw [walkObjChildren_cons]
+      rw [walkObjChildren_consL]
       exact Trace.append (walkValue_trace sv cur _ _ v ws) (walkObjChildren_trace sv cur dfn rest _)
   theorem walkListChildren_trace (sv : SV) (cur : Option OperationDef) (exp : Option GType) (dfn : Option Definition) :
       ∀ (ch : Children) (ws : WS), Trace ws.links.vlinks (walkListChildren sv cur exp dfn ch ws).2
         (walkListChildren sv cur exp dfn ch ws).1.links.vlinks
     | .nil, ws => by simp [walkListChildren, Trace]
     | .cons n v p rest, ws => by
-      rw [walkListChildren_cons]
+      rw [walkListChildren_consL]
       exact Trace.append (walkValue_trace sv cur _ _ v ws) (walkListChildren_trace sv cur exp dfn rest _)
 end
 
@@ -95,7 +95,7 @@ theorem walkArgs_trace (sv : SV) (cur : Option OperationDef) (defs : Option (Lis
       (walkArgs sv cur defs args ws).1.links.vlinks
   | [], ws => by simp [walkArgs, Trace]
   | a :: rest, ws => by
-    rw [walkArgs_cons]
+    rw [walkArgs_consL]
     exact Trace.append (walkValue_trace sv cur _ _ a.value ws) (walkArgs_trace sv cur defs rest _)
 
 theorem Built.trace {sv : SV} {d : QueryDoc} {a b : VLinks} {es : List Event} (h : Built sv d a es b) : Trace a es b := by
